@@ -137,6 +137,9 @@ def check_sample(cfg, M, tol=1e-7):
     cx = cfg['complex'] or cfg['symmetry'] in ('hermitian', 'antihermitian')
     if not cx and np.iscomplexobj(A) and np.abs(A.imag).max() > 0:
         return 'complex entries in a real sampler'
+    forced_real = cfg['symmetry'] == 'antisymmetric' and n == 2 and cfg['determinant'] == 1          # [[0, a], [-a, 0]] with a^2 = 1: only a = +-1
+    if cx and not forced_real and not (np.iscomplexobj(A) and np.abs(A.imag).max() > 0):
+        return 'real entries in a complex sampler (complex=True, or a hermitian / antihermitian symmetry, which implies it)'
     s = cfg['symmetry']
     if s == 'diagonal' and np.abs(A - np.diag(np.diag(A))).max() > tol:
         return 'not diagonal'
